@@ -66,6 +66,21 @@ func isUnsignedExpr(info *types.Info, e ast.Expr) bool {
 
 // unsignedZeroTest: p = ±u + k compared with 0 under op, u one opaque unsigned value: when that is the test
 // u < 1 / u <= 0 (u == 0) or u > 0 / u >= 1 (u != 0), the equality operator, and k and the sign of u in p.
+// lenAtomOnly: p is ±len(…) plus a constant.
+func lenAtomOnly(p Poly) bool {
+	n := 0
+	for a, cf := range p {
+		if a == "" {
+			continue
+		}
+		n++
+		if !strings.HasPrefix(a, "len(") || (cf != 1 && cf != -1) {
+			return false
+		}
+	}
+	return n == 1
+}
+
 func unsignedZeroTest(p Poly, op token.Token) (token.Token, int64, int64, bool) {
 	var atom string
 	n := 0
@@ -126,7 +141,7 @@ func cmpsIn(pk *packages.Package, fd *ast.FuncDecl, fn string, subst map[types.O
 		}
 	}
 	defer func() { polyRecv, polyRecv2, polyArgs, polyReach, polyPaths = nil, nil, nil, nil, false }()
-	fdefs := singleDefs(info, fd.Body)
+	fdefs := withRangeValues(info, fd.Body, singleDefs(info, fd.Body))
 	for o, d := range callerDefs {
 		if _, dup := fdefs[o]; !dup {
 			fdefs[o] = d
@@ -244,6 +259,67 @@ func cmpsIn(pk *packages.Package, fd *ast.FuncDecl, fn string, subst map[types.O
 				site.op, site.p, site.pa, site.pr, site.pra = nop, shift(site.p), shift(site.pa), shift(site.pr), shift(site.pra)
 			}
 		}
+		// where the two sides are known to differ (the else of `a == b`, a case after `a != b`), `a >= b` is `a > b`: the
+		// boundary is not reachable there, and the comparison is read in its strict form whichever way it was written
+		if site.op == token.GEQ || site.op == token.LEQ || site.rop == token.GEQ || site.rop == token.LEQ {
+			eqForm := canonCut(site.p, token.EQL)
+			for _, f := range pathFactsAt(fparents, be) {
+				if f.be.Op != token.EQL && f.be.Op != token.NEQ {
+					continue
+				}
+				fl, ok1 := exprPoly(info, f.be.X, nil, nil, 0)
+				fr, ok2 := exprPoly(info, f.be.Y, nil, nil, 0)
+				if !ok1 || !ok2 || canonCut(polyAdd(fl, fr, -1), token.EQL) != eqForm {
+					continue
+				}
+				if (f.be.Op == token.NEQ) != f.neg {
+					strict := map[token.Token]token.Token{token.GEQ: token.GTR, token.LEQ: token.LSS}
+					// each of the two readings — the test as written, and the side that refuses — in its strict form
+					if r, ok := strict[site.op]; ok {
+						site.op = r
+					}
+					if r, ok := strict[site.rop]; ok {
+						site.rop = r
+					}
+					break
+				}
+			}
+		}
+		// the same through a local: `last := len(xs) - 1; last >= 0` is len(xs) >= 1, a length tested against zero. Read
+		// off the resolved form (one len(…) atom): the resolved and type-named-resolved forms and the operator follow,
+		// the forms over the names as written stay what they are
+		if lenAtomOnly(site.pr) && !(neverNegative(info, be.X) && neverNegative(info, be.Y)) {
+			if nop, k, sign, ok := unsignedZeroTest(site.pr, site.op); ok {
+				shift := func(q Poly) Poly {
+					q = polyAdd(q, polyConst(k), -1)
+					if sign < 0 {
+						q = polyAdd(Poly{}, q, -1)
+					}
+					return q
+				}
+				if site.rop != 0 {
+					if rop, _, _, ok := unsignedZeroTest(site.pr, site.rop); ok {
+						site.rop = rop
+					}
+				}
+				site.op, site.pr, site.pra = nop, shift(site.pr), shift(site.pra)
+				// the named forms: the local stands for the length now (its definition absorbed the offset)
+				if len(site.p) <= 2 {
+					pn, pan := Poly{}, Poly{}
+					for a, cf := range site.p {
+						if a != "" {
+							pn[a] = cf
+						}
+					}
+					for a, cf := range site.pa {
+						if a != "" {
+							pan[a] = cf
+						}
+					}
+					site.p, site.pa = pn, pan
+				}
+			}
+		}
 		site.tn, site.en, site.negc = branchNamesOf(info, fparents, be)
 		// a local that merely names one value (m := spec.MAX…; x != m): the comparison read with that one local spelled
 		// out and the others as written
@@ -336,7 +412,7 @@ func collectCmps1(p *Prog) map[string][]cmpSite {
 		var callerDefs map[types.Object]localDef
 		var callerReach *reachInfo
 		if caller.fd != nil && caller.fd.Body != nil {
-			callerDefs = singleDefs(caller.pk.TypesInfo, caller.fd.Body)
+			callerDefs = withRangeValues(caller.pk.TypesInfo, caller.fd.Body, singleDefs(caller.pk.TypesInfo, caller.fd.Body))
 			callerReach = reachingDefs(caller.pk.TypesInfo, caller.fd.Body)
 		}
 		isDirect := map[string]bool{}
@@ -364,7 +440,9 @@ func collectCmps1(p *Prog) map[string][]cmpSite {
 					}
 				}
 			}
-			// the helper's receiver, when called on the caller's own receiver, is the same `recv`
+			// the helper's receiver, when called on the caller's own receiver, is the same `recv`; called on another
+			// value (v.activeAt(e) with v a local or an element), it is that value
+			recvArg(hd, hc.call, callerRecv, caller.pk.TypesInfo, subst)
 			for _, s := range cmpsIn(hd.pk, hd.fd, hc.h, subst, callerRecv, callerDefs, callerReach) {
 				add(s, hc.h)
 			}
@@ -722,6 +800,8 @@ func ruleCmpSpec(c *Ctx) {
 				c.bad(key, oc.pos, "%s compares these operands with %s where the rule is %s (%s)", g.fn, oc.op, g.entries[0].op, specStr)
 				continue
 			}
+			nearMissReviewedRes = g.entries[0].res
+			nearMissReviewedAbs = g.entries[0].abs
 			nm, why := cmpNearMiss(g.fn, g.atoms, res, sites, isOrdering(g.entries[0].op), claimed)
 			if nm == nil {
 				// fallback: the replacement may also have changed the class (an equality turned into an ordering test)
@@ -966,6 +1046,14 @@ func specHasField(pk *packages.Package, name string) bool {
 // of its operands? If the missing operand still exists in the function (a local/parameter of that name is still
 // declared; a field of that name is still selected somewhere in the package), the comparison was pointed at another
 // value - a violation. If it no longer exists anywhere it was renamed and the checker cannot tell (nil => unmodelled).
+// nearMissReviewedRes: the resolved form of the reviewed comparison cmpNearMiss is asked about (set by the caller).
+var nearMissReviewedRes string
+var nearMissReviewedAbs string
+
+// byNumberNear: the candidate has one operand fewer than the reviewed comparison (an operand replaced by a number: the
+// type-named forms cannot be equal then).
+func byNumberNear(s *cmpSite, res []*regexp.Regexp) bool { return len(atomsOf(s.p)) == len(res)-1 }
+
 func cmpNearMiss(fn string, atoms []string, res []*regexp.Regexp, sites []cmpSite, ordering bool, claimed map[token.Pos]bool) (*cmpSite, string) {
 	d, ok := cmpDecls[fn]
 	if !ok {
@@ -1032,6 +1120,69 @@ func cmpNearMiss(fn string, atoms []string, res []*regexp.Regexp, sites []cmpSit
 			}
 			if !hit {
 				other = a
+			}
+		}
+		// an operand replaced by another value leaves the types of the comparison what they were: a comparison over
+		// other types that merely shares a local's name (a loop counter `i`) is another comparison
+		if nearMissReviewedAbs != "" && !byNumberNear(s, res) {
+			want, got := absTokRe.FindAllString(nearMissReviewedAbs, -1), absTokRe.FindAllString(canonCutAbs(s.pa, s.op), -1)
+			ty := func(t string) string { return t[:strings.LastIndex(t, "#")] }
+			pool := map[string]int{}
+			for _, t := range got {
+				pool[ty(t)]++
+			}
+			shared := 0
+			for _, t := range want {
+				if pool[ty(t)] > 0 {
+					pool[ty(t)]--
+					shared++
+				}
+			}
+			if len(want) >= 2 && shared < len(want)-1 {
+				continue
+			}
+		}
+		// the operand in its place was computed FROM the reviewed operand (count := anchorIndex - offset; i < count):
+		// read through its locals the comparison still involves it — nothing was put in its place
+		if s.pr != nil {
+			derived := false
+			if _, ok := coefOfAtom(s.pr, res[missing]); ok {
+				derived = true
+			}
+			for _, a := range atomsOf(s.pr) {
+				if strings.Contains(strings.ToLower(a), strings.ToLower(lit)) {
+					derived = true
+				}
+			}
+			// … or all the operands of the reviewed comparison, read through ITS locals
+			if nearMissReviewedRes != "" && !derived {
+				body := nearMissReviewedRes
+				if i := strings.Index(body, " "); i >= 0 {
+					body = body[i+1:]
+				}
+				have := map[string]bool{}
+				for _, a := range atomsOf(s.pr) {
+					have[a] = true
+				}
+				all, n := true, 0
+				for _, term := range strings.Split(body, " + ") {
+					if k := strings.Index(term, "*"); k > 0 && strings.Trim(term[:k], "-0123456789") == "" {
+						term = term[k+1:]
+					}
+					if strings.Trim(term, "-0123456789") == "" {
+						continue
+					}
+					n++
+					if !have[term] {
+						all = false
+					}
+				}
+				if all && n > 0 {
+					derived = true
+				}
+			}
+			if derived {
+				continue
 			}
 		}
 		declared := func(name string) bool {
@@ -1190,7 +1341,10 @@ func cmpAbsMatch(fn string, entries []cmpSpec, atoms []string, sites []cmpSite, 
 		// the reviewed values, whatever the locals are called now and whatever else goes by the old names
 		return true, "", first
 	}
-	if sw := stillDeclaredIn(fn, want, gotNamed); len(sw) > 0 {
+	stillDeclaredAt = first
+	sw := stillDeclaredIn(fn, want, gotNamed)
+	stillDeclaredAt = token.NoPos
+	if len(sw) > 0 {
 		return true, fmt.Sprintf("the comparison has the reviewed shape but no longer uses %v, which still exist(s) in the function: another value of the same type was put in its place", sw), first
 	}
 	return true, "", first
@@ -1916,4 +2070,23 @@ func markRop(s cmpSite, mk string) token.Token {
 		op = negOp[op]
 	}
 	return op
+}
+
+// recvArg: a method helper called on something other than the caller's receiver: its receiver stands for that value.
+func recvArg(hd cmpDecl, call *ast.CallExpr, callerRecv types.Object, callerInfo *types.Info, subst map[types.Object]ast.Expr) {
+	if hd.fd.Recv == nil || len(hd.fd.Recv.List) != 1 || len(hd.fd.Recv.List[0].Names) != 1 || call == nil {
+		return
+	}
+	sel, ok := ast.Unparen(call.Fun).(*ast.SelectorExpr)
+	if !ok || !substitutable(sel.X) {
+		return
+	}
+	if id, ok := ast.Unparen(sel.X).(*ast.Ident); ok && callerRecv != nil && callerInfo.Uses[id] == callerRecv {
+		return
+	}
+	ro := hd.pk.TypesInfo.Defs[hd.fd.Recv.List[0].Names[0]]
+	if ro == nil || assignedIn(hd.pk.TypesInfo, hd.fd.Body, ro) {
+		return
+	}
+	subst[ro] = sel.X
 }
